@@ -113,7 +113,7 @@ PROPS['C15'] = dict(
 )
 
 # properties whose checks are finished, validated on the unchanged tree and listed in MANIFEST.json
-CLAIMED = ['C01', 'C02', 'C03', 'C04', 'C05', 'C09', 'C10', 'C11', 'C12', 'C15', 'C19']
+CLAIMED = ['C01', 'C02', 'C03', 'C04', 'C05', 'C09', 'C10', 'C11', 'C12', 'C13', 'C15', 'C18', 'C19', 'C20']
 
 NOT_APPLICABLE = {
     'C16': 'pure function of program text (compliance rules): no schedule, clock, I/O fault, crash point or second party for a simulator to own; generating packages and rule violations would be input generation, not simulation (DESIGN.md section 6)',
@@ -146,6 +146,10 @@ _load_extra()
 
 # W-PIPE halves of properties whose other half lives in another world's registry file
 _EXTRA_BATCHES = {
+    # the status poll of a worker that finishes while the pipeline is in gitting / reloading: the life-cycle world keeps it inactive for seconds
+    'C11': [dict(name='lifecycle', world='worlds.fsm', cfg=dict(prop='C11', faults=False, events=12,
+                                                             mix=dict(run=5, rerun_executing=0, add_target=1, run_all=1, run_empty=0, update=0, submit=6, reset=1, bad_trigger=0)),
+                 runs=dict(quick=300, thorough=15000))],
     'C18': [pipe('pipe-history', 700, 30000, prop='C18', faults=False, events=12, outcome=dict(success=4, failure=2, invalid=2)),
             pipe('pipe-history-faults', 400, 20000, prop='C18', faults=True, net=True, events=12, mix=MIX_UPDATE, record_on_run=True)],
     'C20': [dict(name='pipe-timers', world='worlds.timer', cfg=dict(prop='C20', faults=False), runs=dict(quick=500, thorough=20000))],
